@@ -1473,16 +1473,27 @@ class Emitter:
         if condvar:
             raise Unsupported("for with condition variable")
         ce = "1"
+        cpre = []
         if c:
-            pre, ce = self.with_pre(lambda: self.E(c))
-            if pre:
-                raise Unsupported("temporaries in for condition")
+            cpre, ce = self.with_pre(lambda: self.E(c))
         ie = ""
         if inc:
             pre, ie = self.with_pre(lambda: self.E(inc))
             if pre:
                 raise Unsupported("temporaries in for increment")
         m = self.loop_macro()
+        if cpre:
+            # the condition needs statements (hoisted calls): evaluate it at the top of every iteration;
+            # `continue` in the body still reaches the increment expression
+            out.append("%sfor (; ; %s)" % (ind2, ie))
+            out.append(ind2 + "  " + m)
+            out.append(ind2 + "{")
+            out += [ind2 + "  " + p for p in cpre]
+            out.append("%s  if (!(%s)) break;" % (ind2, ce))
+            out += self.body(body, ind2 + "  ")
+            out.append(ind2 + "}")
+            out.append(ind + "}")
+            return out
         out.append("%sfor (; %s; %s)" % (ind2, ce, ie))
         out.append(ind2 + "  " + m)
         out += self.body(body, ind2)
